@@ -113,9 +113,33 @@ Lemma wf_sub_dep s j k : WF s -> In k (subs (getn s j)) -> dep k j.
 Proof. intros W H. eapply wf_dep; eauto. eapply wf_sub_src; eauto. Qed.
 
 (* ---------------------------------------------------------------- per-node clauses *)
-(* every tracked entry of the last run's log still shows the source's current value *)
+(* "the same value" as far as the subscribers of source j are told: equality, except for a memo
+   whose comparator is coarser (it does not report a change between two values of one class) *)
+Definition eqv (j : nat) (a b : Z) : Prop :=
+  match decl_of p j with
+  | DMemo CPar _ => Z.even a = Z.even b
+  | _ => a = b
+  end.
+Lemma eqv_refl j a : eqv j a a.
+Proof. unfold eqv. destruct (decl_of p j) as [| [| |] ?| |]; reflexivity. Qed.
+Lemma eqv_sym j a b : eqv j a b -> eqv j b a.
+Proof. unfold eqv. destruct (decl_of p j) as [| [| |] ?| |]; auto. Qed.
+Lemma eqv_trans j a b c : eqv j a b -> eqv j b c -> eqv j a c.
+Proof. unfold eqv. destruct (decl_of p j) as [| [| |] ?| |]; congruence. Qed.
+Lemma eqv_eq j a b : a = b -> eqv j a b.
+Proof. intros ->. apply eqv_refl. Qed.
+(* all comparators of the program are exact *)
+Definition exact_prog : Prop := forall i e, decl_of p i <> DMemo CPar e.
+Lemma eqv_exact j a b : exact_prog -> eqv j a b -> a = b.
+Proof.
+  unfold eqv. intros H. specialize (H j). destruct (decl_of p j) as [| [| |] e| |]; auto.
+  exfalso. apply (H e). reflexivity.
+Qed.
+
+(* every tracked entry of the last run's log still shows the source's current value (up to the
+   source's own comparator) *)
 Definition Lcur (s : state) (i : nat) : Prop :=
-  forall j v, In (j, v, true) (rlog (getn s i)) -> cur s j = v.
+  forall j v, In (j, v, true) (rlog (getn s i)) -> eqv j (cur s j) v.
 (* every memo tracked by the last run is Clean *)
 Definition Lclean (s : state) (i : nat) : Prop :=
   forall j v, In (j, v, true) (rlog (getn s i)) -> memob j = true -> st (getn s j) = Clean.
